@@ -95,6 +95,14 @@ OPEN = [
     {"property": "C07", "key": "builtin-optimizer-suboptimal-with-buffers", "where": "processscheduler/solver.py buffer encoding + z3.Optimize",
      "match": {"clause": "C07.better_schedule_exists", "direction": "suboptimal", "features": {"optimizer": "optimize", "has_buffer": True}},
      "minimal_input": _BUF_IN, "description": _BUF},
+    {"property": "C07", "key": "builtin-optimizer-suboptimal-on-nonlinear-cost", "where": "processscheduler/indicator.py IndicatorResourceCost (trapezoid of a linear / polynomial cost = product of unknowns) + z3.Optimize",
+     "match": {"clause": "C07.not_optimal_bruteforce", "direction": "suboptimal", "features": {"optimizer": "optimize", "nonlinear_objective": True}},
+     "minimal_input": "workers w0 (LinearFunction slope 2 intercept 1) and w1 (constant 2), t0 variable 1..3 on SelectWorkers([w0, w1], 1), t1 fixed 2 on w0 starting >= 1, horizon 5, ObjectiveMinimizeResourceCost([w0, w1]), optimizer='optimize': returns 14 in some runs, the optimum is 12 (incremental: always 12)",
+     "description": "with a linear or polynomial cost function the cost indicator is a non-linear integer term; z3.Optimize then returns non-optimal schedules in some runs (no warning, answer 'sat'); the incremental optimiser is not affected. Not repairable in the library short of a linearised cost encoding"},
+    {"property": "C07", "key": "builtin-optimizer-suboptimal-on-nonlinear-cost", "where": "processscheduler/indicator.py IndicatorResourceCost + z3.Optimize",
+     "match": {"clause": "C07.better_schedule_exists", "direction": "suboptimal", "features": {"optimizer": "optimize", "nonlinear_objective": True}},
+     "minimal_input": "see the C07.not_optimal_bruteforce entry of the same key",
+     "description": "with a linear or polynomial cost function the cost indicator is a non-linear integer term; z3.Optimize then returns non-optimal schedules in some runs (no warning, answer 'sat'); the incremental optimiser is not affected. Not repairable in the library short of a linearised cost encoding"},
     {"property": "C15", "key": "builtin-optimizer-suboptimal-with-buffers", "where": "processscheduler/solver.py buffer encoding + z3.Optimize",
      "match": {"clause": "C15.optimum_differs", "direction": "differs", "features": {"optimize_with_buffer": True}},
      "minimal_input": _BUF_IN, "description": _BUF},
